@@ -765,7 +765,11 @@ class Executor:
             return Closure(m.group(1), [])
         m = re.match(r'^ZeroSized: (.*)$', txt)
         if m:
-            return Opaque('fn:' + m.group(1).strip())
+            t = m.group(1).strip()
+            mm = re.search(r'\{([^{}]*)\}$', t)      # `for<'a> fn(&'a u8) -> bool {core::num::<impl u8>::is_ascii_hexdigit}`
+            return Opaque('fn:' + (mm.group(1).strip() if mm else t))
+        if ('const ' + txt) in self.prog.raw:
+            return self.call('const ' + txt, [])
         m = re.match(r'^(-?[\d.]+(?:[eE][+-]?\d+)?|[+-]?inf|NaN)f64$', txt)
         if m:
             return F(z3.FPVal(float(m.group(1)), z3.Float64()))
